@@ -41,6 +41,9 @@ def limit_grid(tier, rng):
         g.append(("movetime %d" % t, t / 1000.0))
     for (w, b, wi, bi) in ((0, 0, 0, 0), (1, 1, 0, 0), (40, 40, 0, 0), (1000, 1000, 10, 10), (0, 1000, 0, 0), (1000, 0, 100, 0)):
         g.append(("wtime %d btime %d winc %d binc %d" % (w, b, wi, bi), max(w, b) / 20000.0 + max(wi, bi) / 2000.0))
+    # own clock decides, not the opponent's: budget depends on the side to move (None = computed per position)
+    g.append(("wtime 60000 btime 200 winc 20000 binc 0", None))
+    g.append(("wtime 200 btime 60000 winc 0 binc 20000", None))
     g.append(("wtime 30", 0.01))
     g.append(("binc 20 btime 5", 0.02))
     g.append(("depth 2 nodes 7", 5.0))
@@ -54,7 +57,7 @@ def limit_grid(tier, rng):
 
 def run(ctx):
     prop = "C09"
-    gate, err = SP.prepare(prop, extra_targets=B.MODEL_TARGETS)
+    gate, err = SP.prepare(prop, extra_targets=B.MODEL_TARGETS + ["model/Go.vo"])
     if err:
         return err
     violations, cov = [], {"samples": []}
@@ -62,8 +65,28 @@ def run(ctx):
 
     def relevant(case, dv):
         return dv["field"] in ("engine-panic", "bestmove-line", "best_move", "model-setup", "engine-setup-panic")
-    SP.corr(ctx, prop, ("value", "budget"), relevant,
-            "search answer (panic / bestmove line / chosen move) differs from the model", violations, cov)
+    r = SP.corr(ctx, prop, ("value", "budget", "timer"), relevant,
+                "search answer (panic / bestmove line / chosen move) differs from the model", violations, cov)
+    # the time-management budget: engine vs the model's formula (model/Go.v), both colours
+    if r is not None:
+        tc = [(c, e) for c, e in zip(r["cases"], r["engine"]) if c["group"] == "timer"]
+        items = ["time_budget %s (mkGo None None None (Some %d) (Some %d) (Some %d) (Some %d))" % (
+            "Black" if c["black"] else "White", c["clocks"][0], c["clocks"][1], c["clocks"][2], c["clocks"][3]) for c, _ in tc]
+        vals, lg = C.coq_eval_items("c09t", "From Coq Require Import NArith List.\nImport ListNotations.\nFrom RCE Require Import model.Board model.Uci model.Go.\nOpen Scope N_scope.\n",
+                                    items, lambda l: l, nshards=2, timeout=300)
+        if vals is None:
+            rp = C.write_replay(prop, {"broken": "time budget evaluation", "log": lg[-1500:]})
+            violations.append({"replay": rp, "no_input": True})
+        else:
+            for (c, e), mv in zip(tc, vals):
+                got = e["results"][0].get("timer")
+                if got != mv:
+                    rp = C.write_replay(prop, {"kind": "time-management budget differs from own clock/20 + own increment/2",
+                                               "side_to_move": "black" if c["black"] else "white", "wtime,btime,winc,binc": c["clocks"],
+                                               "engine_budget_ms": got, "model_budget_ms": mv, "case": c})
+                    violations.append({"replay": rp})
+                    break
+            cov["time_budgets_compared"] = len(tc)
 
     # ---- the real binary over the pipe: limit grid x positions x consecutive go's ----
     legal, lg = legal_sets()
@@ -84,8 +107,16 @@ def run(ctx):
         poscmd = "position " + pos + (" moves " + " ".join(ms) if ms else "")
         eng.send(poscmd)
         try:
+            fen_side = "w" if pos == "startpos" else pos.split()[2]
+            side = fen_side if len(ms) % 2 == 0 else ("b" if fen_side == "w" else "w")
             for gi, (limits, budget_s) in enumerate(grid):
-                if ctx["tier"] == "quick" and (gi + pi) % 2 == 1 and gi > 8:
+                if budget_s is None:
+                    f = dict(zip(limits.split()[0::2], [int(x) for x in limits.split()[1::2]]))
+                    own = (f["wtime"] / 20 + f["winc"] / 2) if side == "w" else (f["btime"] / 20 + f["binc"] / 2)
+                    if own > 500:
+                        continue          # legitimately long think: not for this tier
+                    budget_s = own / 1000.0
+                elif ctx["tier"] == "quick" and (gi + pi) % 2 == 1 and gi > 8:
                     continue
                 before = len(eng.lines())
                 t0 = time.time()
